@@ -151,12 +151,21 @@ def ground_fallback(hyps, goal, timeout_ms):
     return r, (s.model() if r == z3.sat else None)
 
 
+Z3_DISABLED = False
+
+
 def discharge(ob, z3_timeout_ms=10000, cvc5_timeout_s=30, cross_check=False, expect_sat=False, quick_fail=False, cvc5_first=False):
     """sets ob.status in {unsat, sat, unknown}, ob.backend, ob.model (z3 model object kept for replay extraction)"""
     t0 = time.time()
     goal = ob.goal
     if z3.is_true(z3.simplify(goal)):
         ob.status, ob.backend, ob.time = "unsat", "trivial", 0.0
+        return ob
+    if Z3_DISABLED:
+        # retry after the in-process solver was killed by the driver's hard guard: only the out-of-process solver, proofs only
+        cr, ct = run_cvc5(to_smt2(ob.hyps, goal), cvc5_timeout_s)
+        ob.cvc5 = cr
+        ob.status, ob.backend, ob.time = ("unsat" if cr == "unsat" else "unknown"), "cvc5 (z3 killed by hard guard)", time.time() - t0
         return ob
     def mk(mbqi):
         s = z3.Solver()
